@@ -18,7 +18,7 @@
 const char* const H_NAME = "c01_mixed";
 const char* const H_PROPERTY = "C01";
 
-enum { M_YIELD = 0, M_MUTEX, M_COND, M_SEM, M_RW, M_BARRIER, M_CHAN, M_MULTI, M_SLEEP, M_DETACH, M_PIPE, M_CLOSESIG, M_STORM, M_MSIG, M_TRYJOIN, M_NKINDS };
+enum { M_YIELD = 0, M_MUTEX, M_COND, M_SEM, M_RW, M_BARRIER, M_CHAN, M_MULTI, M_SLEEP, M_DETACH, M_PIPE, M_CLOSESIG, M_STORM, M_MSIG, M_TRYJOIN, M_JOINDETACH, M_NKINDS };
 #define MAXMOD 5
 #define MAXF 96
 typedef struct mod {
@@ -210,6 +210,29 @@ static void* f_tj_poller(void* p) {
   op_done();
   return NULL;
 }
+/* a fiber is detached by a third fiber while another one is blocked joining it and it is still running */
+static NS int g_joiner_registered(mod_t* m) { return atomic_load(&m->waiter_fiber->detach_state) == FIBER_DETACH_WAIT_TO_JOIN; }
+static void* f_jd(void* p) {
+  arg_t* a = p;
+  mod_t* m = a->m;
+  if (a->role == 0) { /* target: alive until the detacher is done */
+    for (int i = 0; i < m->a; i++) RS0(fiber_yield);
+    while (!m->got) RS0(fiber_yield);
+    m->flag = 1;
+    return (void*)0x7d00;
+  }
+  if (a->role == 1) { /* joiner */
+    void* res = NULL;
+    chk(fiber_join(m->waiter_fiber, &res) != FIBER_SUCCESS, "C04-join-before-return", "mixed program: fiber_join succeeded although the fiber was detached while still running");
+    op_done();
+    return NULL;
+  }
+  while (!g_joiner_registered(m)) RS0(fiber_yield);
+  chk(fiber_detach(m->waiter_fiber) == FIBER_SUCCESS, "C04-detach-failed", "mixed program: fiber_detach failed");
+  m->got = 1;
+  op_done();
+  return NULL;
+}
 static void* f_pipe(void* p) {
   arg_t* a = p;
   mod_t* m = a->m;
@@ -394,7 +417,7 @@ void h_run(void) {
   nmod = wl_int(1, sim_tier_thorough() ? MAXMOD : 4);
   char d[400];
   int dk = 0;
-  static const char* const kn[] = {"yield", "mutex", "cond", "sem", "rwlock", "barrier", "chan", "multi", "sleep", "detach", "pipe", "close-then-signal", "storm", "multi-signal", "tryjoin-poll"};
+  static const char* const kn[] = {"yield", "mutex", "cond", "sem", "rwlock", "barrier", "chan", "multi", "sleep", "detach", "pipe", "close-then-signal", "storm", "multi-signal", "tryjoin-poll", "join-then-detached"};
   for (int i = 0; i < nmod; i++) {
     M[i].kind = wl_pct(25) ? M_STORM : wl_pick(M_NKINDS);
     M[i].a = wl_int(1, 4);
@@ -478,6 +501,15 @@ void h_run(void) {
         if (m->b) fiber_yield();
         spawn(f_tj_poller, m, 1);
         break;
+      case M_JOINDETACH:
+        spawn(f_jd, m, 0);
+        m->waiter_fiber = fibers[nf - 1];
+        detached[ndet++] = fibers[nf - 1];
+        fibers[nf - 1] = NULL;
+        spawn(f_jd, m, 1);
+        if (m->b) fiber_yield();
+        spawn(f_jd, m, 2);
+        break;
       case M_PIPE:
         if (pipe(m->pfd) != 0) sim_violation("SIM-pipe", "pipe() failed");
         spawn(f_pipe, m, 0);
@@ -518,7 +550,7 @@ void h_run(void) {
   for (int i = 0; i < nf; i++)
     if (fibers[i]) fiber_join(fibers[i], NULL);
   for (int i = 0; i < nmod; i++)
-    if (M[i].kind == M_DETACH)
+    if (M[i].kind == M_DETACH || M[i].kind == M_JOINDETACH)
       while (!M[i].flag) fiber_sleep(0, 1000);
   sim_drain();
   for (int i = 0; i < ndet; i++)
